@@ -165,6 +165,7 @@ type pacStub struct{ answer string }
 func (p pacStub) FindProxyForURL(*url.URL, string) (string, error) { return p.answer, nil }
 
 type ReqSpec struct {
+	Scheme   string      `json:"scheme"` // "http" (default) | "https" for absolute-form requests
 	Method   string      `json:"method"`
 	Host     string      `json:"host"`
 	Headers  [][2]string `json:"headers"`
@@ -184,7 +185,11 @@ func (q ReqSpec) raw() accessrig.RawReq {
 	if q.Method == "POST" {
 		body = "payload"
 	}
-	return accessrig.RawReq{Raw: accessrig.BuildRaw(q.Method, "http://"+q.Host+"/vf", "1.1", hs, body), Method: q.Method}
+	scheme := q.Scheme
+	if scheme == "" {
+		scheme = "http"
+	}
+	return accessrig.RawReq{Raw: accessrig.BuildRaw(q.Method, scheme+"://"+q.Host+"/vf", "1.1", hs, body), Method: q.Method}
 }
 
 type shape struct {
@@ -231,6 +236,7 @@ func paShapes(auth bool) []shape {
 }
 
 var targets = []string{"example.test", "example.test:80", "example.test:8080", "other.test", "other.test:8080", "EXAMPLE.test:80", "[2001:db8::1]:80", "[2001:db8::1]"}
+var httpsTargets = []string{"example.test", "example.test:443", "example.test:8080", "other.test", "[2001:db8::1]"}
 var connectTargets = []string{"example.test:443", "example.test:80", "other.test:8443", "[2001:db8::1]:443"}
 
 type Case struct {
@@ -267,6 +273,9 @@ func coqCase(s Spec, upAddr string, raw accessrig.RawReq, q ReqSpec, o accessrig
 		switch {
 		case m.Kind == "proxy-connect":
 			kind = "GConnect"
+		case m.Kind == "tunnel-inner" && req.Method != http.MethodConnect:
+			// the proxy's own request inside the tunnel it opened through the upstream proxy: its recipient is the origin
+			to, kind = "ToOrigin", "GTunnelInner"
 		case m.Kind == "tunnel-inner", req.Method == http.MethodConnect:
 			kind = "GTunnelInner"
 		}
@@ -278,9 +287,13 @@ func coqCase(s Spec, upAddr string, raw accessrig.RawReq, q ReqSpec, o accessrig
 			innerAuth = append(innerAuth, h[1])
 		}
 	}
-	return fmt.Sprintf("{| f_entries := %s; f_up := %s; f_req := {| r_method := %s; r_host := %s; r_hdr := %s |}; f_inner_auth := %s; f_msgs := %s |}",
+	scheme := req.URL.Scheme
+	if scheme == "" && req.Method != http.MethodConnect {
+		scheme = "http"
+	}
+	return fmt.Sprintf("{| f_entries := %s; f_up := %s; f_req := {| r_method := %s; r_host := %s; r_hdr := %s |}; f_scheme := %s; f_inner_auth := %s; f_msgs := %s |}",
 		coqEntries(s.Table), coqUpstream(s, upAddr), coqfmt.Str(req.Method), coqfmt.Str(req.URL.Host), coqfmt.Header(req.Header),
-		coqfmt.StrList(innerAuth), coqfmt.List("gmsg", msgs)), true
+		coqfmt.Str(scheme), coqfmt.StrList(innerAuth), coqfmt.List("gmsg", msgs)), true
 }
 
 func writeShard(dir, name, typ, modelF, propF string, cases []string) error {
@@ -307,6 +320,7 @@ type Meta struct {
 	ByAuthShape  map[string]int `json:"exchanges_by_client_authorization_shape"`
 	ByPAShape    map[string]int `json:"exchanges_by_client_proxy_authorization_shape"`
 	ByMethod     map[string]int `json:"exchanges_by_method"`
+	ByScheme     map[string]int `json:"exchanges_by_scheme"`
 	MatcherCases int            `json:"matcher_cases"`
 	MatcherBuilt int            `json:"matcher_cases_table_accepted"`
 	MatcherHits  int            `json:"matcher_cases_with_a_match"`
@@ -336,13 +350,16 @@ func main() {
 	}
 	r := rng.New(*seed)
 	m := Meta{ShardSize: 300, ShardKinds: map[string]int{}, MsgsByHop: map[string]int{}, ByUpstream: map[string]int{},
-		ByAuthShape: map[string]int{}, ByPAShape: map[string]int{}, ByMethod: map[string]int{}}
+		ByAuthShape: map[string]int{}, ByPAShape: map[string]int{}, ByMethod: map[string]int{}, ByScheme: map[string]int{}}
 
 	rig, err := accessrig.NewRig()
 	if err != nil {
 		panic(err)
 	}
 	defer rig.Close()
+	if err := rig.StartTLSOrigin(); err != nil {
+		panic(err)
+	}
 	upAddr := rig.UpstreamAddr()
 	upHost, upPort := "127.0.0.1", upAddr[strings.LastIndex(upAddr, ":")+1:]
 
@@ -372,7 +389,7 @@ func main() {
 		}
 	} else {
 		id := 0
-		budget := 60
+		budget := 75
 		if *tier == "thorough" {
 			budget = 0
 		}
@@ -391,6 +408,13 @@ func main() {
 								method = "POST"
 							}
 							reqs = append(reqs, ReqSpec{Method: method, Host: t, Headers: append(append([][2]string{}, p.lines...), a.lines...), AuthTag: a.tag, PATag: p.tag})
+						}
+					}
+					// https targets in absolute form: TLS to the origin, or the Transport's own CONNECT through the proxy
+					for i, t := range httpsTargets {
+						for j, a := range as {
+							p := ps[(i+2*j)%len(ps)]
+							reqs = append(reqs, ReqSpec{Scheme: "https", Method: "GET", Host: t, Headers: append(append([][2]string{}, p.lines...), a.lines...), AuthTag: a.tag, PATag: p.tag})
 						}
 					}
 					for i, t := range connectTargets {
@@ -436,7 +460,7 @@ func main() {
 			if cur != nil {
 				cur.Stop()
 			}
-			ps := accessrig.ProxySpec{Name: proxyName}
+			ps := accessrig.ProxySpec{Name: proxyName, NoKeepAlive: true}
 			if j.spec.Auth {
 				ps.Basic = url.UserPassword(authUser, authPass)
 			}
@@ -470,6 +494,13 @@ func main() {
 			m.ByAuthShape[j.reqs[i].AuthTag]++
 			m.ByPAShape[j.reqs[i].PATag]++
 			m.ByMethod[j.reqs[i].Method]++
+			if j.reqs[i].Method != "CONNECT" {
+				sc := j.reqs[i].Scheme
+				if sc == "" {
+					sc = "http"
+				}
+				m.ByScheme[sc]++
+			}
 			for _, mm := range o.Msgs {
 				m.MsgsByHop[mm.Peer+"/"+mm.Kind]++
 				if len(mm.Header.Values("Authorization")) > 0 {
